@@ -167,6 +167,22 @@ func (e *PathMatchExpression) addSegment(ident string) {
 //	candidate : some/path=key/more/path/here/and/here
 //	slice     :               and/here
 func (e *PathMatchExpression) PathMatches(base *Path, candidate *Path) bool {
+	return e.pathMatches(base, candidate, false)
+}
+
+// PathLeadsToMatch is like PathMatches but also true when candidate is only the beginning
+// of a selector path. A container on the way to a selected node has to be entered to reach it.
+//
+// Example:
+//
+//	base      : some/path
+//	candidate : some/path=key/more
+//	slice     :               more/path
+func (e *PathMatchExpression) PathLeadsToMatch(base *Path, candidate *Path) bool {
+	return e.pathMatches(base, candidate, true)
+}
+
+func (e *PathMatchExpression) pathMatches(base *Path, candidate *Path, partial bool) bool {
 	// NOTE: empty selector means select everything
 	if len(e.paths) == 0 {
 		return true
@@ -178,20 +194,28 @@ func (e *PathMatchExpression) PathMatches(base *Path, candidate *Path) bool {
 			return true
 		}
 
-		if e.match(path, base, candidate) {
+		if e.match(path, base, candidate, partial) {
 			return true
 		}
 	}
 	return false
 }
 
-func (e *PathMatchExpression) match(segs segments, base *Path, candidate *Path) bool {
+func (e *PathMatchExpression) match(segs segments, base *Path, candidate *Path, partial bool) bool {
 	p := candidate
 	j := (candidate.Len() - base.Len()) - 1
+	i := len(segs) - 1
+	if j < i {
+		// candidate is shorter than the selector, at best it is on the way to a match
+		if !partial {
+			return false
+		}
+		i = j
+	}
 
 	// start navigation at the end of the tail as it would likely be more efficient the longer
 	// the path
-	for i := len(segs) - 1; i >= 0; {
+	for i >= 0 {
 
 		// we keep peeling back slice as long as it continues to match candidate as we
 		// peel that back as well.
@@ -203,7 +227,8 @@ func (e *PathMatchExpression) match(segs segments, base *Path, candidate *Path) 
 		}
 		p = p.Parent
 		if p == nil {
-			panic("illegal call : base was not found to be any parent of candidate")
+			// base is not a parent of candidate
+			return false
 		}
 		j--
 	}
